@@ -138,6 +138,8 @@ MUTANTS = [
     ("weak_form_no_memo", "bempp_cl/api/assembly/boundary_operator.py", "        if not self._cached:\n            self._cached = self._assemble()\n\n        return self._cached", "        self._cached = self._assemble()\n\n        return self._cached", 0, ["C18"]),
     ("fmm_near_kernel_gradient_sign", "bempp_cl/api/fmm/helpers.py", "                    -diff[i, j] * m_inv_4pi / (dist[j] * dist[j] * dist[j])", "                    diff[i, j] * m_inv_4pi / (dist[j] * dist[j] * dist[j])", 0, ["C17"]),
     ("fmm_dl_component", "bempp_cl/api/fmm/fmm_assembler.py", "fmm_res2 = fmm_interface.evaluate(source_normals[:, 1] * x_transformed)[:, 2]", "fmm_res2 = fmm_interface.evaluate(source_normals[:, 1] * x_transformed)[:, 1]", 0, ["C17"]),
+    ("fmm_rows_by_position", "bempp_cl/api/fmm/fmm_assembler.py", "iind[index] = number_of_quad_points * element + point_index", "iind[index] = number_of_quad_points * element_index + point_index", 1, ["C17"]),
+    ("fmm_normals_by_position", "bempp_cl/api/fmm/fmm_assembler.py", "normals[npoints * element + n, :] = grid.normals[element] * space.normal_multipliers[element]", "normals[npoints * element + n, :] = grid.normals[element]", 0, ["C17"]),
     ("fmm_select_double_before_adjoint", "bempp_cl/api/fmm/fmm_assembler.py", "    elif \"adjoint_double\" in operator_descriptor.identifier:\n        return evaluate_adjoint_double_layer\n    elif \"double\" in operator_descriptor.identifier:\n        return evaluate_double_layer", "    elif \"double\" in operator_descriptor.identifier:\n        return evaluate_double_layer\n    elif \"adjoint_double\" in operator_descriptor.identifier:\n        return evaluate_adjoint_double_layer", 0, ["C17"]),
     ("fmm_select_hyp_family", "bempp_cl/api/fmm/fmm_assembler.py", "    if operator_descriptor.identifier == \"helmholtz_hypersingular_boundary\":\n        return evaluate_helmholtz_hypersingular", "    if operator_descriptor.identifier == \"helmholtz_hypersingular_boundary\":\n        return evaluate_modified_helmholtz_hypersingular", 0, ["C17"]),
     ("fmm_hyp_k2_sign", "bempp_cl/api/fmm/fmm_assembler.py", "return first_part - wavenumber * wavenumber * second_part + singular_part @ x", "return first_part + wavenumber * wavenumber * second_part + singular_part @ x", 0, ["C17"]),
